@@ -17,6 +17,11 @@ def bad2(result, keys):
     for key in rest:
         out.append(key)
     return out
+def bad3(data, labels, fh):
+    for key in data.keys() & labels.keys():
+        _helper(labels[key], data[key], fh)
+def _helper(label, value, fh):
+    print(label, value, file=fh)
 def good(result, keys):
     for key in keys.intersection(result):
         del result[key]
@@ -32,15 +37,18 @@ def _is_set_expr(func, e, depth=0):
             return True
         if isinstance(e.func, ast.Attribute) and e.func.attr in ("difference", "union", "intersection", "symmetric_difference"):
             return True
-    if isinstance(e, ast.BinOp) and isinstance(e.op, (ast.Sub, ast.BitOr, ast.BitAnd, ast.BitXor)) and (_is_set_expr(func, e.left, depth) or _is_set_expr(func, e.right, depth)):
-        return True
+    if isinstance(e, ast.BinOp) and isinstance(e.op, (ast.Sub, ast.BitOr, ast.BitAnd, ast.BitXor)):
+        # set algebra; on dictionary views (`a.keys() & b.keys()`) it produces a plain set as well
+        view = lambda x: isinstance(x, ast.Call) and isinstance(x.func, ast.Attribute) and x.func.attr in ("keys", "items") and not x.args
+        if _is_set_expr(func, e.left, depth) or _is_set_expr(func, e.right, depth) or view(e.left) or view(e.right):
+            return True
     if isinstance(e, ast.Name) and depth < 3 and e.id in func.locals and e.id not in func.params:
         d = single_def(func, e.id)
         return d is not None and _is_set_expr(func, d, depth + 1)
     return False
 
 
-def _ordered_effect(stmts):
+def _ordered_effect(stmts, prog=None, func=None, depth=0):
     """The loop body produces something whose order is observable."""
     for st in stmts:
         for x in ast.walk(st):
@@ -50,6 +58,11 @@ def _ordered_effect(stmts):
                 nm = x.func.attr if isinstance(x.func, ast.Attribute) else getattr(x.func, "id", "")
                 if nm in ("append", "extend", "insert", "write", "writelines", "print", "setdefault", "update"):
                     return x
+                # a helper of the package that writes a record / appends: its effects happen in iteration order
+                if prog is not None and func is not None and depth < 3:
+                    r = prog.resolve_expr(func, func.module, x.func)
+                    if r and r[0] == "func" and r[1] is not func and _ordered_effect(r[1].body, prog, r[1], depth + 1) is not None:
+                        return x
             if isinstance(x, ast.Assign) and any(isinstance(t, ast.Subscript) for t in x.targets):
                 return x
             if isinstance(x, ast.AugAssign) and isinstance(x.op, ast.Add) and not isinstance(x.value, ast.Constant):
@@ -62,7 +75,7 @@ def set_order_sites(prog, func):
     pm = prog.parents(func)
     for n in func.own_nodes():
         if isinstance(n, ast.For) and _is_set_expr(func, n.iter):
-            eff = _ordered_effect(n.body)
+            eff = _ordered_effect(n.body, prog, func)
             if eff is not None:
                 out.append((n, n.iter))
         elif isinstance(n, (ast.ListComp, ast.DictComp, ast.GeneratorExp)):
@@ -91,9 +104,9 @@ def check_set_order(ctx, rid, funcs, label):
     ov = dict(prog.overlay or {})
     ov["iodata/zz_selftest_setorder.py"] = POSITIVE
     p2 = Program(prog.root, overlay=ov)
-    nb = len(set_order_sites(p2, p2.func("iodata.zz_selftest_setorder.bad"))) + len(set_order_sites(p2, p2.func("iodata.zz_selftest_setorder.bad2")))
+    nb = sum(len(set_order_sites(p2, p2.func(f"iodata.zz_selftest_setorder.{nm}"))) for nm in ("bad", "bad2", "bad3"))
     ng = len(set_order_sites(p2, p2.func("iodata.zz_selftest_setorder.good")))
-    if nb != 2 or ng:
-        raise AnalysisError(f"set-order self-test failed: {nb}/2 seeded sites flagged, {ng} false alarms on the sorted / order-insensitive twin")
+    if nb != 3 or ng:
+        raise AnalysisError(f"set-order self-test failed: {nb}/3 seeded sites flagged, {ng} false alarms on the sorted / order-insensitive twin")
     if not hits:
-        ctx.ok(rid, f"{n} {label}: no set is iterated into an ordered result (positive control: 2 seeded sites flagged, sorted / deleting twin silent)", "iodata/")
+        ctx.ok(rid, f"{n} {label}: no set is iterated into an ordered result (positive control: 3 seeded sites flagged, sorted / deleting twin silent)", "iodata/")
